@@ -13,6 +13,7 @@ are what they are without a mask (`mask_does_not_change_active_outputs`).
 import RubatoProofs.Lemmas.Shape
 import RubatoProofs.Props.C13
 import RubatoModel.Fft
+import RubatoProofs.Indep.SampleType
 
 set_option linter.unusedSectionVars false
 set_option linter.unusedVariables false
@@ -508,4 +509,830 @@ theorem finishOut_eq (s : AState ρ σ) (mask : List Bool) :
     s.finishOut mask =
       finishWith s mask (outSteps s) (2 * (s.L : Int) + s.fill) (outUpdate s) s.fill s.chunk := rfl
 
+/-! ### One channel of the second half -/
+
+theorem chan_posFault (i : Nat) (s : AState ρ σ) : posFault (chan i s) = posFault s := rfl
+theorem chan_posValue (i : Nat) (s : AState ρ σ) : posValue (chan i s) = posValue s := rfl
+theorem chan_readEnd (i : Nat) (s : AState ρ σ) : readEnd (chan i s) = readEnd s := rfl
+
+theorem finishWith_ok {s s' upd : AState ρ σ} {mask : List Bool} {ps : List ρ} {fe : Int} {nIn nOut : Nat}
+    {out : CallOut σ} (h : finishWith s mask ps fe upd nIn nOut = (s', .ok out)) :
+    s' = upd ∧ evalChannels s s.buf mask ps = .ok out.out ∧ out.nIn = nIn ∧ out.nOut = nOut ∧
+    out.stale = (ps.any fun p => decide (readEnd s p > fe)) := by
+  unfold finishWith at h
+  cases he : evalChannels s s.buf mask ps with
+  | error f =>
+    rw [he] at h
+    simp only [Prod.mk.injEq] at h
+    exact absurd h.2 (faultOutcome_ne_ok f out)
+  | ok outs =>
+    rw [he] at h
+    simp only [Prod.mk.injEq, Outcome.ok.injEq] at h
+    obtain ⟨h1, h2⟩ := h
+    subst h2
+    exact ⟨h1.symm, rfl, rfl, rfl, rfl⟩
+
+/-- channel `i` of a successful evaluation is the single-channel evaluation -/
+theorem finishWith_chan {s s' upd : AState ρ σ} {mask : List Bool} {ps : List ρ} {fe : Int} {nIn nOut : Nat}
+    {out : CallOut σ} {i : Nat} (h : finishWith s mask ps fe upd nIn nOut = (s', .ok out))
+    (hact : mask[i]? = some true) :
+    finishWith (chan i s) [true] ps fe (chan i upd) nIn nOut =
+      (chan i s', .ok { nIn := out.nIn, nOut := out.nOut, out := [out.out.getD i none], stale := out.stale }) ∧
+    out.out[i]? = some (some (ps.toArray.map (posValue s (s.buf.getD i #[])))) := by
+  obtain ⟨h1, h2, h3, h4, h5⟩ := finishWith_ok h
+  obtain ⟨_, hsp⟩ := evalChannels_spec h2
+  obtain ⟨ho, hf⟩ := hsp i true hact
+  have hf := hf rfl
+  simp only [chanOut, if_true] at ho
+  refine ⟨?_, ho⟩
+  unfold finishWith
+  have e : evalChannels (chan i s) (chan i s).buf [true] ps =
+      .ok [some (ps.toArray.map (posValue s (s.buf.getD i #[])))] := by
+    rw [evalChannels_congr (chan_posFault i s) (chan_posValue i s)]
+    show evalChannels s #[s.buf.getD i #[]] [true] ps = _
+    rw [evalChannels_single, hf]
+  rw [e]
+  simp only [chan_readEnd]
+  rw [h1, h3, h4, h5]
+  simp only [List.getD_eq_getElem?_getD, ho, Option.getD_some]
+  rfl
+
+theorem chan_inSteps (i : Nat) (s : AState ρ σ) (fuel : Nat) : inSteps (chan i s) fuel = inSteps s fuel := rfl
+theorem chan_outSteps (i : Nat) (s : AState ρ σ) : outSteps (chan i s) = outSteps s := rfl
+theorem chan_outUpdate (i : Nat) (s : AState ρ σ) : outUpdate (chan i s) = chan i (outUpdate s) := rfl
+
+/-- the second half of a call, channel `i` -/
+theorem finishCall_chan {s s' : AState ρ σ} {mask : List Bool} {outLens : List Nat} {out : CallOut σ} {i l : Nat}
+    (h : finishCall s mask outLens = (s', .ok out)) (hact : mask[i]? = some true)
+    (hl : outLens[i]? = some l) :
+    finishCall (chan i s) [true] [l] =
+      (chan i s', .ok { nIn := out.nIn, nOut := out.nOut, out := [out.out.getD i none], stale := out.stale }) ∧
+    ∃ ps : List ρ, out.out[i]? = some (some (ps.toArray.map (posValue s (s.buf.getD i #[])))) := by
+  unfold finishCall at h ⊢
+  show (if s.kind.isFixedIn = true then _ else _) = _ ∧ _
+  cases hk : s.kind.isFixedIn with
+  | true =>
+    simp only [hk, if_true] at h ⊢
+    rw [finishIn_eq] at h
+    cases hr : (inSteps s (fuelOf outLens mask)).2.2 with
+    | true =>
+      simp only [hr, if_true, Prod.mk.injEq] at h
+      exfalso
+      have := h.2
+      unfold overrun at this
+      split at this <;> simp at this
+    | false =>
+      simp only [hr, Bool.false_eq_true, if_false] at h
+      have hfuel : fuelOf outLens mask ≤ fuelOf [l] [true] := by
+        obtain ⟨n, hn1, hn2⟩ := minActiveLen_le hl hact
+        simp only [fuelOf, hn1]
+        simpa [minActiveLen] using hn2
+      have hst : inSteps s (fuelOf [l] [true]) = inSteps s (fuelOf outLens mask) :=
+        stepsIn_fuel_mono _ _ _ _ _ _ hr hfuel
+      rw [finishIn_eq, chan_inSteps, hst]
+      simp only [hr, Bool.false_eq_true, if_false]
+      obtain ⟨h1, h2⟩ := finishWith_chan h hact
+      exact ⟨h1, _, h2⟩
+  | false =>
+    simp only [hk, Bool.false_eq_true, if_false] at h ⊢
+    rw [finishOut_eq] at h
+    rw [finishOut_eq, chan_outSteps, chan_outUpdate]
+    obtain ⟨h1, h2⟩ := finishWith_chan h hact
+    exact ⟨h1, _, h2⟩
+
+/-! ### One channel of a whole call -/
+
+theorem refill_single (s : AState ρ σ) (b inp : Array σ) (shiftFrom n : Nat) (hb : s.buf = #[b]) :
+    refill s [true] [inp] shiftFrom n =
+      if shiftFrom + 2 * s.L > b.size then none
+      else (refillChan (2 * s.L) n true (copyWithin b shiftFrom (2 * s.L)) inp).map fun x => #[x] := by
+  unfold refill
+  simp only [hb]
+  have e1 : (#[b].any fun b => decide (shiftFrom + 2 * s.L > b.size)) = decide (shiftFrom + 2 * s.L > b.size) := by
+    simp
+  rw [e1]
+  by_cases h : shiftFrom + 2 * s.L > b.size
+  · simp [h]
+  · simp only [h, decide_false, Bool.false_eq_true, if_false]
+    have e2 : (#[b].map fun b => copyWithin b shiftFrom (2 * s.L)) = #[copyWithin b shiftFrom (2 * s.L)] := by simp
+    rw [e2]
+    simp only [refill.go, if_true, refillChan]
+    have e3 : (#[copyWithin b shiftFrom (2 * s.L)] : Array (Array σ)).getD 0 #[] = copyWithin b shiftFrom (2 * s.L) := by simp
+    rw [e3]
+    split
+    · rfl
+    · simp
+
+/-- what a valid call guarantees about an active channel -/
+theorem valid_active {inLens outLens : List Nat} {mask : List Bool} {nch minIn minOut i : Nat}
+    (hv : validateBuffers inLens outLens mask nch minIn minOut = .ok ()) (hact : mask[i]? = some true) :
+    ∃ li lo, inLens[i]? = some li ∧ outLens[i]? = some lo ∧ minIn ≤ li ∧ minOut ≤ lo := by
+  obtain ⟨h1, h2, h3, h4, h5⟩ := (C13.validate_ok_iff _ _ _ _ _ _).1 hv
+  have hi : i < mask.length := by
+    rcases List.getElem?_eq_some_iff.1 hact with ⟨hi, _⟩; exact hi
+  have hi1 : i < inLens.length := by omega
+  have hi2 : i < outLens.length := by omega
+  refine ⟨inLens[i], outLens[i], List.getElem?_eq_getElem hi1, List.getElem?_eq_getElem hi2, ?_, ?_⟩
+  · exact C13.firstShort_go_none inLens mask minIn 0 (by omega) h3 i _ (List.getElem?_eq_getElem hi1) hact
+  · exact C13.firstShort_go_none outLens mask minOut 0 (by omega) h5 i _ (List.getElem?_eq_getElem hi2) hact
+
+theorem validate_single {li lo minIn minOut : Nat} (h1 : minIn ≤ li) (h2 : minOut ≤ lo) :
+    validateBuffers [li] [lo] [true] 1 minIn minOut = .ok () := by
+  have e1 : ¬ li < minIn := by omega
+  have e2 : ¬ lo < minOut := by omega
+  simp [validateBuffers, firstShort, firstShort.go, e1, e2]
+
+theorem updateMask_chan {nch : Nat} {um : Option (List Bool)} {mask : List Bool} {i : Nat}
+    (h : updateMask nch um = .ok mask) (hact : mask[i]? = some true) :
+    updateMask 1 (um.map fun m => [m.getD i true]) = .ok [true] := by
+  cases um with
+  | none => rfl
+  | some m =>
+    obtain ⟨h1, _⟩ := updateMask_ok h
+    simp only [effMask] at h1
+    subst h1
+    simp [updateMask, List.getD_eq_getElem?_getD, hact]
+
+/-- **C11, one call**: channel `i` of a successful n-channel call is the single-channel call on
+(channel `i` of the state, channel `i` of the arguments). -/
+theorem process_channel {s s' : AState ρ σ} {a : CallArgs σ} {out : CallOut σ} {i : Nat}
+    (h : s.process a = (s', .ok out)) (hsz : s.buf.size = s.nch)
+    (hact : (effMask s.nch a.mask)[i]? = some true) :
+    (chan i s).process (chanArgs i a) =
+      (chan i s', .ok { nIn := out.nIn, nOut := out.nOut, out := [out.out.getD i none], stale := out.stale }) ∧
+    ∃ o, out.out[i]? = some (some o) := by
+  obtain ⟨mask, buf, hm, hv, hr, hf⟩ := process_ok_stages h
+  obtain ⟨hme, hml⟩ := updateMask_ok hm
+  rw [← hme] at hact
+  have hi : i < s.nch := by
+    rcases List.getElem?_eq_some_iff.1 hact with ⟨hi, _⟩; omega
+  obtain ⟨li, lo, hli, hlo, hmin, hmout⟩ := valid_active hv hact
+  -- the input of channel `i`
+  have hil : i < a.input.length := by
+    rcases List.getElem?_eq_some_iff.1 hli with ⟨hi', _⟩; simpa using hi'
+  have hinp : a.input[i]? = some a.input[i] := List.getElem?_eq_getElem hil
+  have hgi : a.input.getD i #[] = a.input[i] := by simp [List.getD_eq_getElem?_getD, hinp]
+  have hli' : li = a.input[i].size := by
+    simp only [List.getElem?_map, hinp, Option.map_some, Option.some.injEq] at hli; exact hli.symm
+  have hgo : a.outLens.getD i 0 = lo := by simp [List.getD_eq_getElem?_getD, hlo]
+  -- stage 1: the mask
+  have hm1 : updateMask (chan i s).nch (chanArgs i a).mask = .ok [true] := updateMask_chan hm hact
+  -- stage 2: validation
+  have hv1 : validateBuffers ((chanArgs i a).input.map Array.size) (chanArgs i a).outLens [true] (chan i s).nch
+      (chan i s).minIn (chan i s).minOut = .ok () := by
+    show validateBuffers ([a.input.getD i #[]].map Array.size) [a.outLens.getD i 0] [true] 1 s.minIn s.minOut = _
+    rw [hgi, hgo]
+    exact validate_single (by omega) hmout
+  -- stage 3: refill
+  obtain ⟨r1, r2, r3⟩ := refill_spec hr
+  have r2 : ∀ j, j < s.buf.size → s.shiftFrom + 2 * s.L ≤ (s.buf.getD j #[]).size := r2
+  have r3 : ∀ j m inp, mask[j]? = some m → a.input[j]? = some inp → j < s.buf.size →
+      refillChan (2 * s.L) s.minIn m (copyWithin (s.buf.getD j #[]) s.shiftFrom (2 * s.L)) inp
+        = some (buf.getD j #[]) := r3
+  have hib : i < s.buf.size := by omega
+  have hr3 := r3 i true a.input[i] hact hinp hib
+  have hr2 := r2 i hib
+  have hr1 : refill { chan i s with mask := [true] } [true] (chanArgs i a).input (chan i s).shiftFrom (chan i s).minIn
+      = some #[buf.getD i #[]] := by
+    show refill { chan i s with mask := [true] } [true] [a.input.getD i #[]] s.shiftFrom s.minIn = _
+    rw [hgi, refill_single _ (s.buf.getD i #[]) _ _ _ rfl]
+    show (if s.shiftFrom + 2 * s.L > (s.buf.getD i #[]).size then none else _) = _
+    have : ¬ s.shiftFrom + 2 * s.L > (s.buf.getD i #[]).size := by omega
+    simp only [this, if_false]
+    show Option.map _ (refillChan (2 * s.L) s.minIn true (copyWithin (s.buf.getD i #[]) s.shiftFrom (2 * s.L)) a.input[i]) = _
+    rw [hr3]; rfl
+  have hp := process_of_stages hm1 hv1 hr1
+  have hst : refilledState (chan i s) [true] #[buf.getD i #[]] = chan i (refilledState s mask buf) := by
+    have : mask.getD i true = true := by simp [List.getD_eq_getElem?_getD, hact]
+    simp only [refilledState, chan, this]
+    rfl
+  rw [hp, hst]
+  show finishCall _ [true] [a.outLens.getD i 0] = _ ∧ _
+  rw [hgo]
+  obtain ⟨h1, ps, h2⟩ := finishCall_chan hf hact hlo
+  exact ⟨h1, _, h2⟩
+
+/-! ### Inactive channels -/
+
+theorem firstShort_go_congr (need : Nat) :
+    ∀ (mask : List Bool) (lens lens' : List Nat) (k : Nat), lens.length = lens'.length →
+      (∀ j : Nat, mask[j]? = some true → lens[j]? = lens'[j]?) →
+      firstShort.go need lens mask k = firstShort.go need lens' mask k := by
+  intro mask
+  induction mask with
+  | nil =>
+    intro lens lens' k _ _
+    cases lens <;> cases lens' <;> simp [firstShort.go]
+  | cons m ms ih =>
+    intro lens lens' k hl h
+    cases lens with
+    | nil =>
+      cases lens' with
+      | nil => rfl
+      | cons _ _ => simp at hl
+    | cons l ls =>
+      cases lens' with
+      | nil => simp at hl
+      | cons l' ls' =>
+        have hl' : ls.length = ls'.length := by simpa using hl
+        have h' : ∀ j : Nat, ms[j]? = some true → ls[j]? = ls'[j]? := fun j hj => by
+          have := h (j + 1) (by simpa using hj)
+          simpa using this
+        cases m with
+        | false =>
+          simp only [firstShort.go, Bool.false_and, Bool.false_eq_true, if_false]
+          exact ih ls ls' (k + 1) hl' h'
+        | true =>
+          have e : l = l' := by
+            have := h 0 (by simp)
+            simpa using this
+          subst e
+          simp only [firstShort.go]
+          rw [ih ls ls' (k + 1) hl' h']
+
+/-- the sizes of inactive channels' buffers are never looked at by `validate_buffers` -/
+theorem validateBuffers_congr {lens lens' outLens : List Nat} {mask : List Bool} (c mi mo : Nat)
+    (hl : lens.length = lens'.length) (h : ∀ j : Nat, mask[j]? = some true → lens[j]? = lens'[j]?) :
+    validateBuffers lens outLens mask c mi mo = validateBuffers lens' outLens mask c mi mo := by
+  unfold validateBuffers firstShort
+  rw [hl, firstShort_go_congr mi mask lens lens' 0 hl h]
+
+/-- **the input of an inactive channel is never indexed**: replacing it by any other array (even an
+empty one) leaves the whole result of the call — new state and outcome — unchanged. -/
+theorem inactive_input_irrelevant (s : AState ρ σ) (a : CallArgs σ) (i : Nat) (x : Array σ)
+    (hina : (effMask s.nch a.mask)[i]? ≠ some true) :
+    s.process { a with input := a.input.set i x } = s.process a := by
+  cases hm : updateMask s.nch a.mask with
+  | error e =>
+    have hm' : updateMask s.nch ({ a with input := a.input.set i x } : CallArgs σ).mask = .error e := hm
+    simp only [AState.process, hm]
+  | ok mask =>
+    have hm' : updateMask s.nch ({ a with input := a.input.set i x } : CallArgs σ).mask = .ok mask := hm
+    obtain ⟨hme, _⟩ := updateMask_ok hm
+    rw [← hme] at hina
+    have hcong : ∀ j : Nat, mask[j]? = some true → (a.input.set i x)[j]? = a.input[j]? := by
+      intro j hj
+      rw [List.getElem?_set]
+      by_cases hij : i = j
+      · subst hij; exact absurd hj hina
+      · simp [hij]
+    have hv : validateBuffers ((a.input.set i x).map Array.size) a.outLens mask s.nch
+          (AState.minIn { s with mask := mask }) (AState.minOut { s with mask := mask }) =
+        validateBuffers (a.input.map Array.size) a.outLens mask s.nch
+          (AState.minIn { s with mask := mask }) (AState.minOut { s with mask := mask }) := by
+      apply validateBuffers_congr
+      · simp
+      · intro j hj
+        simp only [List.getElem?_map, hcong j hj]
+    have hr : refill { s with mask := mask } mask (a.input.set i x) (AState.shiftFrom { s with mask := mask })
+          (AState.minIn { s with mask := mask }) =
+        refill { s with mask := mask } mask a.input (AState.shiftFrom { s with mask := mask })
+          (AState.minIn { s with mask := mask }) :=
+      refill_congr _ mask _ _ _ _ (by simp) hcong
+    simp only [AState.process, hm, hv, hr]
+
+theorem finishCall_ok {s s' : AState ρ σ} {mask : List Bool} {outLens : List Nat} {out : CallOut σ}
+    (h : finishCall s mask outLens = (s', .ok out)) :
+    ∃ ps, evalChannels s s.buf mask ps = .ok out.out ∧ s'.buf = s.buf ∧ s'.mask = s.mask := by
+  unfold finishCall at h
+  cases hk : s.kind.isFixedIn with
+  | true =>
+    simp only [hk, if_true] at h
+    rw [finishIn_eq] at h
+    cases hr : (inSteps s (fuelOf outLens mask)).2.2 with
+    | true =>
+      simp only [hr, if_true, Prod.mk.injEq] at h
+      exfalso
+      have := h.2
+      unfold overrun at this
+      split at this <;> simp at this
+    | false =>
+      simp only [hr, Bool.false_eq_true, if_false] at h
+      obtain ⟨h1, h2, _⟩ := finishWith_ok h
+      exact ⟨_, h2, by rw [h1], by rw [h1]⟩
+  | false =>
+    simp only [hk, Bool.false_eq_true, if_false] at h
+    rw [finishOut_eq] at h
+    obtain ⟨h1, h2, _⟩ := finishWith_ok h
+    exact ⟨_, h2, by rw [h1]; rfl, by rw [h1]; rfl⟩
+
+/-- **inactive channels are not written**: the output slot of an inactive channel is `none`, and its
+history buffer only undergoes the shift (`copy_within`) that every channel undergoes. -/
+theorem inactive_untouched {s s' : AState ρ σ} {a : CallArgs σ} {out : CallOut σ} {i : Nat}
+    (h : s.process a = (s', .ok out)) (hsz : s.buf.size = s.nch)
+    (hina : (effMask s.nch a.mask)[i]? = some false) :
+    out.out[i]? = some none ∧
+    s'.buf.getD i #[] = copyWithin (s.buf.getD i #[]) s.shiftFrom (2 * s.L) ∧
+    ∀ x, s.process { a with input := a.input.set i x } = (s', .ok out) := by
+  refine ⟨?_, ?_, fun x => ?_⟩
+  · obtain ⟨mask, buf, hm, hv, hr, hf⟩ := process_ok_stages h
+    obtain ⟨hme, _⟩ := updateMask_ok hm
+    rw [← hme] at hina
+    obtain ⟨ps, he, _, _⟩ := finishCall_ok hf
+    obtain ⟨_, hsp⟩ := evalChannels_spec he
+    have := (hsp i false hina).1
+    simpa [chanOut] using this
+  · obtain ⟨mask, buf, hm, hv, hr, hf⟩ := process_ok_stages h
+    obtain ⟨hme, hml⟩ := updateMask_ok hm
+    rw [← hme] at hina
+    obtain ⟨ps, _, hb, _⟩ := finishCall_ok hf
+    have hb : s'.buf = buf := hb
+    obtain ⟨h1, h2, h3, h4, h5⟩ := (C13.validate_ok_iff _ _ _ _ _ _).1 hv
+    have hi : i < mask.length := by
+      rcases List.getElem?_eq_some_iff.1 hina with ⟨hi, _⟩; exact hi
+    have hil : i < a.input.length := by simp at h1; omega
+    obtain ⟨_, _, r3⟩ := refill_spec hr
+    have r3 : ∀ j m inp, mask[j]? = some m → a.input[j]? = some inp → j < s.buf.size →
+        refillChan (2 * s.L) s.minIn m (copyWithin (s.buf.getD j #[]) s.shiftFrom (2 * s.L)) inp
+          = some (buf.getD j #[]) := r3
+    have := r3 i false a.input[i] hina (List.getElem?_eq_getElem hil) (by omega)
+    simp only [refillChan, Bool.false_eq_true, if_false, Option.some.injEq] at this
+    rw [hb, ← this]
+  · rw [inactive_input_irrelevant s a i x (by rw [hina]; simp), h]
+
+/-! ### The mask does not change what the active channels get -/
+
+theorem finishWith_two {S s₁ s₂ u₁ : AState ρ σ} {b : Array (Array σ)} {mm m₁ m₂ : List Bool} {ps : List ρ}
+    {fe : Int} {nIn nOut : Nat} {o₁ o₂ : CallOut σ}
+    (h₁ : finishWith S m₁ ps fe u₁ nIn nOut = (s₁, .ok o₁))
+    (h₂ : finishWith { S with buf := b, mask := mm } m₂ ps fe { u₁ with buf := b, mask := mm } nIn nOut
+      = (s₂, .ok o₂)) :
+    o₁.nIn = o₂.nIn ∧ o₁.nOut = o₂.nOut ∧ o₁.stale = o₂.stale ∧ s₂ = { s₁ with buf := b, mask := mm } ∧
+    ∀ i, m₁[i]? = some true → m₂[i]? = some true → b.getD i #[] = S.buf.getD i #[] → o₁.out[i]? = o₂.out[i]? := by
+  obtain ⟨a1, a2, a3, a4, a5⟩ := finishWith_ok h₁
+  obtain ⟨b1, b2, b3, b4, b5⟩ := finishWith_ok h₂
+  refine ⟨by rw [a3, b3], by rw [a4, b4], by rw [a5, b5]; rfl, by rw [b1, a1], ?_⟩
+  intro i hi1 hi2 hb
+  have e1 := ((evalChannels_spec a2).2 i true hi1).1
+  have e2 := ((evalChannels_spec b2).2 i true hi2).1
+  rw [e1, e2]
+  show _ = some (chanOut { S with buf := b, mask := mm } (b.getD i #[]) ps true)
+  rw [hb]
+  rfl
+
+theorem finishCall_two {S s₁ s₂ : AState ρ σ} {b : Array (Array σ)} {mm m₁ m₂ : List Bool} {outLens : List Nat}
+    {o₁ o₂ : CallOut σ}
+    (h₁ : finishCall S m₁ outLens = (s₁, .ok o₁))
+    (h₂ : finishCall { S with buf := b, mask := mm } m₂ outLens = (s₂, .ok o₂)) :
+    o₁.nIn = o₂.nIn ∧ o₁.nOut = o₂.nOut ∧ o₁.stale = o₂.stale ∧ s₂ = { s₁ with buf := b, mask := mm } ∧
+    ∀ i, m₁[i]? = some true → m₂[i]? = some true → b.getD i #[] = S.buf.getD i #[] → o₁.out[i]? = o₂.out[i]? := by
+  unfold finishCall at h₁ h₂
+  have h₂ : (if S.kind.isFixedIn = true then
+      AState.finishIn { S with buf := b, mask := mm } m₂ (fuelOf outLens m₂)
+      else AState.finishOut { S with buf := b, mask := mm } m₂) = (s₂, .ok o₂) := h₂
+  cases hk : S.kind.isFixedIn with
+  | true =>
+    simp only [hk, if_true] at h₁ h₂
+    rw [finishIn_eq] at h₁ h₂
+    have e : inSteps { S with buf := b, mask := mm } (fuelOf outLens m₂) = inSteps S (fuelOf outLens m₂) := rfl
+    rw [e] at h₂
+    cases hr1 : (inSteps S (fuelOf outLens m₁)).2.2 with
+    | true =>
+      simp only [hr1, if_true, Prod.mk.injEq] at h₁
+      exfalso
+      have := h₁.2
+      unfold overrun at this
+      split at this <;> simp at this
+    | false =>
+      cases hr2 : (inSteps S (fuelOf outLens m₂)).2.2 with
+      | true =>
+        simp only [hr2, if_true, Prod.mk.injEq] at h₂
+        exfalso
+        have := h₂.2
+        unfold overrun at this
+        split at this <;> simp at this
+      | false =>
+        have hst : inSteps S (fuelOf outLens m₂) = inSteps S (fuelOf outLens m₁) :=
+          stepsIn_fuel_irrel _ _ _ _ _ _ hr2 hr1
+        rw [hst] at h₂
+        simp only [hr1, Bool.false_eq_true, if_false] at h₁ h₂
+        exact finishWith_two h₁ h₂
+  | false =>
+    simp only [hk, Bool.false_eq_true, if_false] at h₁ h₂
+    rw [finishOut_eq] at h₁ h₂
+    exact finishWith_two h₁ h₂
+
+/-- **C11, masks**: a call with mask `m` and the same call without a mask (all channels active), when
+both succeed, return the same counts and `stale` flag, leave the same control state (the states differ
+at most in the channel buffers and the stored mask), and write the same frames to every channel that
+is active under `m`; the history buffers of those channels are equal afterwards. -/
+theorem mask_does_not_change_active_outputs {s s₁ s₂ : AState ρ σ} {a : CallArgs σ} {m : List Bool}
+    {o₁ o₂ : CallOut σ} (hsz : s.buf.size = s.nch)
+    (h₁ : s.process { a with mask := some m } = (s₁, .ok o₁))
+    (h₂ : s.process { a with mask := none } = (s₂, .ok o₂)) :
+    o₁.nIn = o₂.nIn ∧ o₁.nOut = o₂.nOut ∧ o₁.stale = o₂.stale ∧
+    (∃ b mm, s₂ = { s₁ with buf := b, mask := mm }) ∧
+    ∀ i, m[i]? = some true →
+      o₁.out[i]? = o₂.out[i]? ∧ s₁.buf.getD i #[] = s₂.buf.getD i #[] := by
+  obtain ⟨mask1, buf1, hm1, hv1, hr1, hf1⟩ := process_ok_stages h₁
+  obtain ⟨mask2, buf2, hm2, hv2, hr2, hf2⟩ := process_ok_stages h₂
+  obtain ⟨hme1, hml1⟩ := updateMask_ok hm1
+  obtain ⟨hme2, hml2⟩ := updateMask_ok hm2
+  have hme1 : mask1 = m := hme1
+  have hme2 : mask2 = List.replicate s.nch true := hme2
+  subst hme1
+  have hf2' : finishCall { refilledState s mask1 buf1 with buf := buf2, mask := mask2 } mask2 a.outLens
+      = (s₂, .ok o₂) := hf2
+  have hf1' : finishCall (refilledState s mask1 buf1) mask1 a.outLens = (s₁, .ok o₁) := hf1
+  obtain ⟨c1, c2, c3, c4, c5⟩ := finishCall_two hf1' hf2'
+  obtain ⟨_, _, hb1, _⟩ := finishCall_ok hf1'
+  have hb1 : s₁.buf = buf1 := hb1
+  have hb2 : s₂.buf = buf2 := by rw [c4]
+  -- the refilled buffers agree on the channels active under `m`
+  obtain ⟨_, _, r1⟩ := refill_spec hr1
+  obtain ⟨_, _, r2⟩ := refill_spec hr2
+  have r1 : ∀ j mj inp, mask1[j]? = some mj → a.input[j]? = some inp → j < s.buf.size →
+      refillChan (2 * s.L) s.minIn mj (copyWithin (s.buf.getD j #[]) s.shiftFrom (2 * s.L)) inp
+        = some (buf1.getD j #[]) := r1
+  have r2 : ∀ j mj inp, mask2[j]? = some mj → a.input[j]? = some inp → j < s.buf.size →
+      refillChan (2 * s.L) s.minIn mj (copyWithin (s.buf.getD j #[]) s.shiftFrom (2 * s.L)) inp
+        = some (buf2.getD j #[]) := r2
+  obtain ⟨v1, _, _, _, _⟩ := (C13.validate_ok_iff _ _ _ _ _ _).1 hv1
+  refine ⟨c1, c2, c3, ⟨_, _, c4⟩, ?_⟩
+  intro i hi
+  have hil : i < mask1.length := by
+    rcases List.getElem?_eq_some_iff.1 hi with ⟨hi', _⟩; exact hi'
+  have hi2 : mask2[i]? = some true := by
+    rw [hme2, List.getElem?_replicate]; simp; omega
+  have hin : i < a.input.length := by
+    have : (List.map Array.size a.input).length = s.nch := v1
+    simp at this; omega
+  have e1 := r1 i true a.input[i] hi (List.getElem?_eq_getElem hin) (by omega)
+  have e2 := r2 i true a.input[i] hi2 (List.getElem?_eq_getElem hin) (by omega)
+  have hbe : buf2.getD i #[] = buf1.getD i #[] := by
+    rw [e1] at e2
+    exact (Option.some.inj e2).symm
+  exact ⟨c5 i hi hi2 hbe, by rw [hb1, hb2, hbe]⟩
+
+/-! ### Whole histories: n channels = n single-channel resamplers -/
+
+/-- one buffer per channel (true after every constructor, kept by every operation) -/
+def BufOk (s : AState ρ σ) : Prop := s.buf.size = s.nch
+
+theorem bufOk_init {kind : AKind} {ratio maxRel : ρ} {deg : Degree} {sint : SincInterp} {ip : Interp σ}
+    {chunk nch : Nat} {s : AState ρ σ} (h : AState.init kind ratio maxRel deg sint ip chunk nch = .ok s) :
+    BufOk s := by
+  unfold AState.init at h
+  split at h
+  · simp at h
+  · simp only [] at h
+    split at h <;>
+      (simp only [Except.ok.injEq] at h; subst h; simp [BufOk, zeroBuf])
+
+theorem setRatio_buf (s : AState ρ σ) (r : ρ) (ramp : Bool) :
+    (s.setRatio r ramp).1.buf = s.buf ∧ (s.setRatio r ramp).1.nch = s.nch := by
+  unfold AState.setRatio
+  split
+  · cases s.kind <;> exact ⟨rfl, rfl⟩
+  · exact ⟨rfl, rfl⟩
+
+theorem setChunk_buf (s : AState ρ σ) (n : Nat) :
+    (s.setChunk n).1.buf = s.buf ∧ (s.setChunk n).1.nch = s.nch := by
+  unfold AState.setChunk
+  cases s.kind with
+  | fastIn => exact ⟨rfl, rfl⟩
+  | fastOut => exact ⟨rfl, rfl⟩
+  | sincIn => dsimp only; split <;> exact ⟨rfl, rfl⟩
+  | sincOut => dsimp only; split <;> exact ⟨rfl, rfl⟩
+
+theorem reset_buf (s : AState ρ σ) : s.reset.buf = zeroLike (ρ := ρ) s.buf ∧ s.reset.nch = s.nch := by
+  unfold AState.reset
+  cases s.kind <;> exact ⟨rfl, rfl⟩
+
+theorem bufOk_step {s : AState ρ σ} (h : BufOk s) (op : AOp ρ σ) : BufOk (s.step op) := by
+  unfold BufOk at h ⊢
+  cases op with
+  | proc a =>
+    have hf := process_frame s a
+    have := congrArg List.length hf.shape
+    simp only [bufShape, List.length_map, Array.length_toList] at this
+    show (s.process a).1.buf.size = (s.process a).1.nch
+    rw [this, hf.nch, h]
+  | ratio r ramp =>
+    show (s.setRatio r ramp).1.buf.size = (s.setRatio r ramp).1.nch
+    rw [(setRatio_buf s r ramp).1, (setRatio_buf s r ramp).2, h]
+  | rel r ramp =>
+    show (s.setRatio _ ramp).1.buf.size = (s.setRatio _ ramp).1.nch
+    rw [(setRatio_buf s _ ramp).1, (setRatio_buf s _ ramp).2, h]
+  | chunk n =>
+    show (s.setChunk n).1.buf.size = (s.setChunk n).1.nch
+    rw [(setChunk_buf s n).1, (setChunk_buf s n).2, h]
+  | reset =>
+    show s.reset.buf.size = s.reset.nch
+    rw [(reset_buf s).1, (reset_buf s).2]
+    simpa [zeroLike] using h
+
+/-- channel `i` of an operation -/
+def chanOp (i : Nat) : AOp ρ σ → AOp ρ σ
+  | .proc a => .proc (chanArgs i a)
+  | .ratio r b => .ratio r b
+  | .rel r b => .rel r b
+  | .chunk n => .chunk n
+  | .reset => .reset
+
+theorem chan_setRatio (i : Nat) (s : AState ρ σ) (r : ρ) (ramp : Bool) :
+    chan i (s.setRatio r ramp).1 = ((chan i s).setRatio r ramp).1 ∧
+    (s.setRatio r ramp).2 = ((chan i s).setRatio r ramp).2 := by
+  unfold chan AState.setRatio
+  dsimp only
+  by_cases h : ratioInRange r s.orig s.maxRel = true
+  · simp only [h, if_true]
+    cases s.kind <;> exact ⟨rfl, rfl⟩
+  · simp only [h]
+    exact ⟨rfl, rfl⟩
+
+theorem chan_setChunk (i : Nat) (s : AState ρ σ) (n : Nat) :
+    chan i (s.setChunk n).1 = ((chan i s).setChunk n).1 ∧
+    (s.setChunk n).2 = ((chan i s).setChunk n).2 := by
+  obtain ⟨kind, nch, chunk, maxChunk, needed, fill, lastIndex, ratio, orig, target, maxRel, L, deg, sint, ip,
+    buf, mask⟩ := s
+  unfold chan AState.setChunk
+  cases kind with
+  | fastIn => exact ⟨rfl, rfl⟩
+  | fastOut => exact ⟨rfl, rfl⟩
+  | sincIn =>
+    dsimp only
+    by_cases h : (decide (n > maxChunk) || n == 0) = true
+    · simp only [h, if_true]; refine ⟨?_, ?_⟩ <;> first | rfl | trivial
+    · simp only [h]; refine ⟨?_, ?_⟩ <;> first | rfl | trivial
+  | sincOut =>
+    dsimp only
+    by_cases h : (decide (n > maxChunk) || n == 0) = true
+    · simp only [h, if_true]; refine ⟨?_, ?_⟩ <;> first | rfl | trivial
+    · simp only [h]; refine ⟨?_, ?_⟩ <;> first | rfl | trivial
+
+theorem zeroLike_getD (b : Array (Array σ)) (i : Nat) :
+    zeroLike (ρ := ρ) #[b.getD i #[]] = #[(zeroLike (ρ := ρ) b).getD i #[]] := by
+  unfold zeroLike
+  by_cases hi : i < b.size
+  · simp [Array.getD, hi]
+  · simp [Array.getD, hi]
+
+theorem chan_reset (i : Nat) (s : AState ρ σ) : chan i s.reset = (chan i s).reset := by
+  obtain ⟨kind, nch, chunk, maxChunk, needed, fill, lastIndex, ratio, orig, target, maxRel, L, deg, sint, ip,
+    buf, mask⟩ := s
+  have hb := zeroLike_getD (ρ := ρ) buf i
+  have hm : [(List.replicate nch true).getD i true] = List.replicate 1 true := by
+    simp only [List.getD_eq_getElem?_getD, List.getElem?_replicate]
+    split <;> rfl
+  unfold chan AState.reset
+  cases kind <;> (dsimp only; rw [hb, hm])
+
+theorem chan_init {kind : AKind} {ratio maxRel : ρ} {deg : Degree} {sint : SincInterp} {ip : Interp σ}
+    {chunk nch i : Nat} {s : AState ρ σ} (h : AState.init kind ratio maxRel deg sint ip chunk nch = .ok s)
+    (hi : i < nch) : AState.init kind ratio maxRel deg sint ip chunk 1 = .ok (chan i s) := by
+  have hb : ∀ len, #[(zeroBuf (ρ := ρ) (σ := σ) nch len).getD i #[]] = zeroBuf (ρ := ρ) 1 len := by
+    intro len; simp [zeroBuf, Array.getD, hi]
+  have hm : [(List.replicate nch true).getD i true] = List.replicate 1 true := by
+    simp [List.getD_eq_getElem?_getD, hi]
+  unfold AState.init at h ⊢
+  cases hv : validateRatios ratio maxRel with
+  | error e => rw [hv] at h; simp at h
+  | ok u =>
+    rw [hv] at h
+    dsimp only at h ⊢
+    cases hk : kind.isFixedIn with
+    | true =>
+      simp only [hk, if_true, Except.ok.injEq] at h ⊢
+      subst h
+      unfold chan
+      dsimp only
+      rw [hb, hm]
+    | false =>
+      simp only [hk, Bool.false_eq_true, if_false, Except.ok.injEq] at h ⊢
+      subst h
+      unfold chan
+      dsimp only
+      rw [hb, hm]
+
+/-- every processing call of the history succeeds and has channel `i` active -/
+def GoodHist (i : Nat) : AState ρ σ → List (AOp ρ σ) → Prop
+  | _, [] => True
+  | s, op :: ops =>
+    (match op with
+      | .proc a => (∃ out, (s.process a).2 = .ok out) ∧ (effMask s.nch a.mask)[i]? = some true
+      | _ => True) ∧ GoodHist i (s.step op) ops
+
+/-- what a processing call returns for channel `i`: the counts, `stale`, and the frames written -/
+def chanObs (i : Nat) (s : AState ρ σ) : AOp ρ σ → Option (Nat × Nat × Bool × Option (Array σ))
+  | .proc a =>
+    match (s.process a).2 with
+    | .ok out => some (out.nIn, out.nOut, out.stale, out.out.getD i none)
+    | _ => none
+  | _ => none
+
+def chanTrace (i : Nat) : AState ρ σ → List (AOp ρ σ) → List (Option (Nat × Nat × Bool × Option (Array σ)))
+  | _, [] => []
+  | s, op :: ops => chanObs i s op :: chanTrace i (s.step op) ops
+
+theorem step_channel {s : AState ρ σ} {i : Nat} (hb : BufOk s) (op : AOp ρ σ)
+    (hg : match op with
+      | .proc a => (∃ out, (s.process a).2 = .ok out) ∧ (effMask s.nch a.mask)[i]? = some true
+      | _ => True) :
+    chan i (s.step op) = (chan i s).step (chanOp i op) ∧ chanObs i s op = chanObs 0 (chan i s) (chanOp i op) := by
+  cases op with
+  | proc a =>
+    obtain ⟨⟨out, ho⟩, hact⟩ := hg
+    have h : s.process a = ((s.process a).1, .ok out) := Prod.ext rfl ho
+    obtain ⟨h1, _⟩ := process_channel h hb hact
+    simp only [AState.step, chanOp, chanObs, h1, ho]
+    exact ⟨trivial, rfl⟩
+  | ratio r ramp => exact ⟨(chan_setRatio i s r ramp).1, rfl⟩
+  | rel r ramp => exact ⟨(chan_setRatio i s _ ramp).1, rfl⟩
+  | chunk n => exact ⟨(chan_setChunk i s n).1, rfl⟩
+  | reset => exact ⟨chan_reset i s, rfl⟩
+
+/-- **C11, histories**: along any history whose processing calls succeed with channel `i` active,
+channel `i` of the n-channel resampler IS the single-channel resampler fed with channel `i` of
+every call: same state after the history, same counts and same frames written by every call. -/
+theorem run_channel {i : Nat} (ops : List (AOp ρ σ)) :
+    ∀ {s : AState ρ σ}, BufOk s → GoodHist i s ops →
+      chan i (s.run ops) = (chan i s).run (ops.map (chanOp i)) ∧
+      chanTrace i s ops = chanTrace 0 (chan i s) (ops.map (chanOp i)) := by
+  induction ops with
+  | nil => intro s _ _; exact ⟨rfl, rfl⟩
+  | cons op ops ih =>
+    intro s hb hg
+    obtain ⟨hg1, hg2⟩ := hg
+    obtain ⟨h1, h2⟩ := step_channel hb op hg1
+    obtain ⟨i1, i2⟩ := ih (bufOk_step hb op) hg2
+    simp only [AState.run, List.map_cons, List.foldl_cons, chanTrace]
+    rw [← h1, ← h2]
+    exact ⟨i1, by rw [i2]⟩
+
+/-! ### The FFT adapters: channels are independent too -/
+section FftChannels
+variable {σ υ : Type}
+
+/-- `mapActive` acts position by position -/
+theorem mapActive_go_chan {α β : Type} (f : Nat → α → Option β) (skip : α → β) :
+    ∀ (mask : List Bool) (k : Nat) (xs : List α) (ys : List β),
+      mapActive.go f skip k mask xs = some ys →
+      ∀ (j : Nat) (m : Bool) (x : α), mask[j]? = some m → xs[j]? = some x →
+        ∃ y, ys[j]? = some y ∧ (if m then f (k + j) x = some y else y = skip x) := by
+  intro mask
+  induction mask with
+  | nil => intro k xs ys _ j m x hm; simp at hm
+  | cons m0 ms ih =>
+    intro k xs ys h j m x hm hx
+    cases xs with
+    | nil => simp at hx
+    | cons x0 xs' =>
+      simp only [mapActive.go] at h
+      cases h1 : (if m0 = true then f k x0 else some (skip x0)) with
+      | none => rw [h1] at h; simp at h
+      | some y0 =>
+        rw [h1] at h
+        simp only [] at h
+        cases h2 : mapActive.go f skip (k + 1) ms xs' with
+        | none => rw [h2] at h; simp at h
+        | some ys' =>
+          rw [h2] at h
+          simp only [Option.some.injEq] at h
+          subst h
+          cases j with
+          | zero =>
+            simp only [List.getElem?_cons_zero, Option.some.injEq] at hm hx
+            subst hm hx
+            refine ⟨y0, by simp, ?_⟩
+            cases m0 with
+            | true => simpa using h1
+            | false => simpa using h1.symm
+          | succ j =>
+            obtain ⟨y, hy1, hy2⟩ := ih (k + 1) xs' ys' h2 j m x (by simpa using hm) (by simpa using hx)
+            refine ⟨y, by simpa using hy1, ?_⟩
+            have e : k + (j + 1) = k + 1 + j := by omega
+            rw [e]; exact hy2
+
+theorem mapActive_chan {α β : Type} {f : Nat → α → Option β} {skip : α → β} {mask : List Bool} {xs : List α}
+    {ys : List β} (h : mapActive mask xs f skip = some ys) {j : Nat} {m : Bool} {x : α}
+    (hm : mask[j]? = some m) (hx : xs[j]? = some x) :
+    ∃ y, ys[j]? = some y ∧ (if m then f j x = some y else y = skip x) := by
+  have := mapActive_go_chan f skip mask 0 xs ys h j m x hm hx
+  simpa using this
+
+/-- what one call does to ONE channel of a synchronous resampler: a function of the shared scalars
+(`kind`, block sizes, chunk sizes, `saved`, `frames_needed`) and of that channel's overlap, store,
+input and output-buffer length — nothing else. -/
+def fftStep (da : DivArith) (u : FftUnit σ υ) (kind : FKind)
+    (fftIn fftOut chunkIn chunkOut saved framesNeeded : Nat)
+    (ov : υ) (store inp : List σ) (outLen : Nat) : Option (υ × List σ × Option (List σ)) :=
+  match kind with
+  | .fftIo => (fIo u fftIn chunkIn chunkOut 0 (ov, inp)).map fun r => (r.1, store, r.2)
+  | .fftIn =>
+    fIn u fftIn fftOut chunkIn saved (saved + chunkIn) (da.fdiv (saved + chunkIn) fftIn)
+      (da.fdiv (saved + chunkIn) fftIn * fftOut) (da.fdiv (saved + chunkIn) fftIn * fftIn) 0
+      ((ov, store), (inp, outLen))
+  | .fftOut =>
+    fOut u fftIn fftOut chunkOut saved framesNeeded
+      (if decide (saved + fftOut * (framesNeeded / fftIn) ≥ chunkOut) then
+        saved + fftOut * (framesNeeded / fftIn) - chunkOut else saved + fftOut * (framesNeeded / fftIn))
+      (decide (saved + fftOut * (framesNeeded / fftIn) ≥ chunkOut)) 0 ((ov, store), inp)
+
+/-- **C11 for the FFT adapters**: after a successful call, channel `j`'s new overlap, new store and
+output are `fftStep` of its own old overlap, store, input and output length if it is active;
+if it is inactive nothing of it changes and nothing is written. -/
+theorem fft_process_channel (da : DivArith) (u : FftUnit σ υ) {s s' : FState σ υ} {input : List (List σ)}
+    {outLens : List Nat} {um : Option (List Bool)} {out : FCallOut σ}
+    (h : FState.process da u s input outLens um = (s', .ok out))
+    {j : Nat} {m : Bool} {o : υ} {st inp : List σ} {ol : Nat}
+    (hm : (effMask s.nch um)[j]? = some m) (ho : s.ov[j]? = some o) (hst : s.store[j]? = some st)
+    (hi : input[j]? = some inp) (hol : outLens[j]? = some ol) :
+    if m then
+      ∃ o' st' y, fftStep da u s.kind s.fftIn s.fftOut s.chunkIn s.chunkOut s.saved s.framesNeeded o st inp ol
+          = some (o', st', y) ∧
+        s'.ov[j]? = some o' ∧ s'.store[j]? = some st' ∧ out.out[j]? = some y
+    else s'.ov[j]? = some o ∧ s'.store[j]? = some st ∧ out.out[j]? = some none := by
+  obtain ⟨kind, nch, ci, co, fi, fo, sv, fn, ov, store, mask0⟩ := s
+  dsimp only at hm ho hst ⊢
+  unfold FState.process at h
+  dsimp only at h
+  cases hmk : updateMask nch um with
+  | error e => rw [hmk] at h; simp at h
+  | ok mask =>
+    rw [hmk] at h
+    dsimp only at h
+    obtain ⟨hme, _⟩ := updateMask_ok hmk
+    rw [← hme] at hm
+    cases kind with
+    | fftIo =>
+      dsimp only at h
+      split at h
+      · simp at h
+      · split at h
+        · simp at h
+        · next rs hrs =>
+          simp only [Prod.mk.injEq, Outcome.ok.injEq] at h
+          obtain ⟨h1, h2⟩ := h
+          subst h1 h2
+          obtain ⟨y, hy1, hy2⟩ := mapActive_chan hrs hm
+            (show (List.zip ov input)[j]? = some (o, inp) by
+              simp [List.getElem?_zip_eq_some, ho, hi])
+          cases m with
+          | true =>
+            simp only [if_true] at hy2 ⊢
+            have hy2 : fIo u fi ci co j (o, inp) = some y := hy2
+            refine ⟨y.1, st, y.2, ?_, by simp [hy1], hst, by simp [hy1]⟩
+            have : fIo u fi ci co 0 (o, inp) = some y := hy2
+            simp only [fftStep, this, Option.map_some]
+          | false =>
+            simp only [Bool.false_eq_true, if_false] at hy2 ⊢
+            subst hy2
+            exact ⟨by simp [hy1], hst, by simp [hy1]⟩
+    | fftIn =>
+      dsimp only at h
+      split at h
+      · simp at h
+      · split at h
+        · simp at h
+        · split at h
+          · simp at h
+          · next rs hrs =>
+            simp only [Prod.mk.injEq, Outcome.ok.injEq] at h
+            obtain ⟨h1, h2⟩ := h
+            subst h1 h2
+            obtain ⟨y, hy1, hy2⟩ := mapActive_chan hrs hm
+              (show (List.zip (List.zip ov store) (List.zip input outLens))[j]? = some ((o, st), (inp, ol)) by
+                simp [List.getElem?_zip_eq_some, ho, hi, hst, hol])
+            cases m with
+            | true =>
+              simp only [if_true] at hy2 ⊢
+              refine ⟨y.1, y.2.1, y.2.2, ?_, by simp [hy1], by simp [hy1], by simp [hy1]⟩
+              exact hy2
+            | false =>
+              simp only [Bool.false_eq_true, if_false] at hy2 ⊢
+              subst hy2
+              exact ⟨by simp [hy1], by simp [hy1], by simp [hy1]⟩
+    | fftOut =>
+      dsimp only at h
+      simp only [fftStep]
+      generalize hcp : decide (sv + fo * (fn / fi) ≥ co) = cp at h ⊢
+      generalize hsv' : (if cp = true then sv + fo * (fn / fi) - co else sv + fo * (fn / fi)) = sv' at h ⊢
+      generalize (if co > sv' then co - sv' else 0) = no at h
+      split at h
+      · simp at h
+      · split at h
+        · simp at h
+        · split at h
+          · simp at h
+          · split at h
+            · simp at h
+            · next rs hrs =>
+              simp only [Prod.mk.injEq, Outcome.ok.injEq] at h
+              obtain ⟨h1, h2⟩ := h
+              subst h1 h2
+              obtain ⟨y, hy1, hy2⟩ := mapActive_chan hrs hm
+                (show (List.zip (List.zip ov store) input)[j]? = some ((o, st), inp) by
+                  simp [List.getElem?_zip_eq_some, ho, hi, hst])
+              cases m with
+              | true =>
+                simp only [if_true] at hy2 ⊢
+                refine ⟨y.1, y.2.1, y.2.2, ?_, by simp [hy1], by simp [hy1], by simp [hy1]⟩
+                exact hy2
+              | false =>
+                simp only [Bool.false_eq_true, if_false] at hy2 ⊢
+                subst hy2
+                exact ⟨by simp [hy1], by simp [hy1], by simp [hy1]⟩
+
+end FftChannels
 end Rubato.Indep
